@@ -38,7 +38,7 @@ func ownerExpr(addr ssa.Value) ssa.Value {
 }
 
 func checkC19Exclusive(w *World, r *Report) {
-	ru := r.Rule("C19.1", "the two trailing-slash modes exclude each other: every store to redirectTrailingSlash/ignoreTrailingSlash of a Router or Route that is not the constant false is either a copy of the same flag from the router (inheritance) or is paired, on the same object, with a store of false to the other flag under the condition that the stored value is true", 4)
+	ru := r.Rule("C19.1", "the two trailing-slash modes exclude each other: every store to redirectTrailingSlash/ignoreTrailingSlash of a Router or Route that is not the constant false is either a copy of the same flag from the router (inheritance) or is paired, on the same object, with a store of false to the other flag under the condition that the stored value is true", 2)
 	names := map[string]string{"redirectTrailingSlash": "ignoreTrailingSlash", "ignoreTrailingSlash": "redirectTrailingSlash"}
 	for _, fn := range w.FoxFuncs() {
 		if isTestHelper(w, fn) {
@@ -99,7 +99,7 @@ func checkC19Exclusive(w *World, r *Report) {
 }
 
 func checkC19Resolver(w *World, r *Report) {
-	ru := r.Rule("C19.2", "the resolver fields are never nil: each store to Router.clientip / Route.clientip is a boxed concrete value, a value dominated by a non-nil test, cmp.Or(x, boxed value) or a copy of the router's field; Route.ClientIPResolver maps the 'none' sentinel to nil; Context.ClientIP uses the route's resolver exactly when a route is set, the router's otherwise", 5)
+	ru := r.Rule("C19.2", "the resolver fields are never nil: each store to Router.clientip / Route.clientip is a boxed concrete value, a value dominated by a non-nil test, cmp.Or(x, boxed value) or a copy of the router's field; Route.ClientIPResolver maps the 'none' sentinel to nil; Context.ClientIP uses the route's resolver exactly when a route is set, the router's otherwise", 3)
 	for _, fn := range w.FoxFuncs() {
 		if isTestHelper(w, fn) {
 			continue
@@ -207,7 +207,7 @@ func checkC19Resolver(w *World, r *Report) {
 }
 
 func checkC19NilArgs(w *World, r *Report) {
-	ru := r.Rule("C19.3", "nil handlers and middleware are rejected: every store of a function-typed option argument into a Router/Route field or a middleware entry is dominated by a nil test of that argument whose failing branch returns an error wrapping ErrInvalidConfig; Txn.Handle/Update reject a nil handler and Txn.HandleRoute/UpdateRoute a nil route with ErrInvalidRoute", 8)
+	ru := r.Rule("C19.3", "nil handlers and middleware are rejected: every store of a function-typed option argument into a Router/Route field or a middleware entry is dominated by a nil test of that argument whose failing branch returns an error wrapping ErrInvalidConfig; Txn.Handle/Update reject a nil handler and Txn.HandleRoute/UpdateRoute a nil route with ErrInvalidRoute", 4)
 	isFuncT := func(t types.Type) bool {
 		_, ok := t.Underlying().(*types.Signature)
 		return ok
@@ -377,7 +377,7 @@ func checkC19Annotation(w *World, r *Report) {
 }
 
 func checkC19Inherit(w *World, r *Report) {
-	ru := r.Rule("C19.5", "inheritance and accessors: NewRoute initialises both trailing-slash flags, the resolver and the middleware list from the router and the parameter count / host split from the validator's results, all before the option loop; Hostname() and Path() slice the pattern at the host split; ParamsLen() reports the stored count", 8)
+	ru := r.Rule("C19.5", "inheritance and accessors: NewRoute initialises both trailing-slash flags, the resolver and the middleware list from the router and the parameter count / host split from the validator's results, all before the option loop; Hostname() and Path() slice the pattern at the host split; ParamsLen() reports the stored count", 4)
 	nr := w.Method("Router", "NewRoute")
 	route := w.FoxType("Route")
 	parse := w.Method("Router", "parseRoute")
